@@ -436,7 +436,7 @@ func (i *insertExecutor) getPkValuesByColumn(ctx context.Context, execCtx *types
 	}
 
 	// generate pkValue by auto increment
-	for _, v := range pkValuesMap {
+	for name, v := range pkValuesMap {
 		tmpV := v
 		if len(tmpV) == 1 {
 			// pk auto generated while single insert primary key is expression
@@ -446,15 +446,35 @@ func (i *insertExecutor) getPkValuesByColumn(ctx context.Context, execCtx *types
 					return nil, err
 				}
 				pkValuesMapMerge(&pkValuesMap, curPkValueMap)
+				continue
 			}
-		} else if len(tmpV) > 0 && tmpV[0] == nil {
-			// pk auto generated while column exists and value is null
-			curPkValueMap, err := i.getPkValuesByAuto(ctx, execCtx)
-			if err != nil {
-				return nil, err
-			}
-			pkValuesMapMerge(&pkValuesMap, curPkValueMap)
 		}
+		// a listed key value of NULL or 0 makes the database generate the key: those rows carry the generated
+		// values (LastInsertId is the first, the others follow with the step auto_increment_increment)
+		generated := 0
+		for _, value := range tmpV {
+			if isGeneratedKeyValue(value) {
+				generated++
+			}
+		}
+		if generated == 0 {
+			continue
+		}
+		if generated != len(tmpV) {
+			return nil, fmt.Errorf("cannot identify the generated keys: the INSERT mixes explicit and generated values of %s", name)
+		}
+		curPkValueMap, err := i.getPkValuesByAuto(ctx, execCtx)
+		if err != nil {
+			return nil, err
+		}
+		var autoValues []interface{}
+		for _, values := range curPkValueMap {
+			autoValues = values
+		}
+		if len(autoValues) != len(tmpV) {
+			return nil, fmt.Errorf("cannot identify the generated keys of %s: %d rows, %d generated values", name, len(tmpV), len(autoValues))
+		}
+		pkValuesMap[name] = autoValues
 	}
 	return pkValuesMap, nil
 }
@@ -577,6 +597,23 @@ func (i *insertExecutor) autoGeneratePks(execCtx *types.ExecContext, autoColumnN
 	pkValuesMap := make(map[string][]interface{})
 	pkValuesMap[autoColumnName] = pkValues
 	return pkValuesMap, nil
+}
+
+// isGeneratedKeyValue: NULL and 0 in an AUTO_INCREMENT column mean "generate" (unless NO_AUTO_VALUE_ON_ZERO is set)
+func isGeneratedKeyValue(value interface{}) bool {
+	switch v := value.(type) {
+	case nil:
+		return true
+	case int64:
+		return v == 0
+	case int:
+		return v == 0
+	case int32:
+		return v == 0
+	case uint64:
+		return v == 0
+	}
+	return false
 }
 
 func pkValuesMapMerge(dest *map[string][]interface{}, src map[string][]interface{}) {
